@@ -70,6 +70,8 @@ def build(tier, seed):
              a_task(PROP, _w(graphsc.add_to_graph)), a_task(PROP, _w(graphsc.register)),
              Task(f"{PROP}.S.add_node", PROP, "add_node methods", _replay(graphsc.add_node_obligations)),
              Task(f"{PROP}.S.adjacency", PROP, "node constructors", _replay(graphsc.adjacency_obligations)),
+             Task(f"{PROP}.S.find_used_modules.lookup", PROP, "find_used_modules", lambda: __import__("contracts.external", fromlist=["x"]).find_used_modules_lookup(PROP, lambda: __import__("bounded.c06", fromlist=["x"]).search())),
+             Task(f"{PROP}.S.file_identity", PROP, "FileNode.__init__", lambda: __import__("contracts.plumbing", fromlist=["x"]).file_dependencies_by_identity(PROP, lambda: __import__("bounded.c13", fromlist=["x"]).search())),
              Task(f"{PROP}.S.graph_false", PROP, "project-wide graphs", lambda: graphsc.project_graphs_respect_graph_false(PROP, lambda: __import__("bounded.c13", fromlist=["x"]).search())),
              a_task(PROP, _wc("assoc_getitem")), a_task(PROP, _wc("assoc_contains")), bounded_task()]
     meta = {
